@@ -1,7 +1,7 @@
 //! Family `console` (C15): both byte streams of the console driver.
 
 use crate::core::*;
-use crate::engine::{self, EngineCore, Personality, Policy, Response, with_engine};
+use crate::engine::{self, EngineCore, Personality, Response, with_engine};
 use crate::out::fnv64;
 use crate::scen_blk::policy_of;
 use crate::scen_life::queue_segments;
